@@ -56,7 +56,7 @@ func (c03) Budget(tier string) runner.Budget {
 	if tier == "thorough" {
 		return runner.Budget{Plans: 60000, PlansPerProc: 300, Wall: 12 * time.Minute}
 	}
-	return runner.Budget{Plans: 12000, PlansPerProc: 200, Wall: 45 * time.Second}
+	return runner.Budget{Plans: 14000, PlansPerProc: 200, Wall: 45 * time.Second}
 }
 
 func (c03) Describe() runner.Description {
